@@ -71,7 +71,7 @@ BASES = {
     # name: (var list, dims AxB, dims BxA, weights, nums, numeric, quickN, thoroughN)
     "cat3_x_cat2": ([A3, B2], [("cat", 0), ("cat", 1)], [("cat", 1), ("cat", 0)], (1, 2), (None,), None, 2, 3),
     # fractional weights: every rows-direction scale statistic must still mirror its columns-direction twin
-    "cat3_x_cat2_fracw": ([A3, B2], [("cat", 0), ("cat", 1)], [("cat", 1), ("cat", 0)], (0.6, 0.9, 1.7), (None,), None, 2, 3),
+    "cat3_x_cat2_fracw": ([A3, B2], [("cat", 0), ("cat", 1)], [("cat", 1), ("cat", 0)], (0.625, 0.875, 1.75), (None,), None, 2, 3),
     "cat3_x_cat2_num": ([A3, B2], [("cat", 0), ("cat", 1)], [("cat", 1), ("cat", 0)], (1,), (None, 1, 3), NUM, 1, 2),
     "cat3_x_cat2_sumna": ([A3, B2], [("cat", 0), ("cat", 1)], [("cat", 1), ("cat", 0)], (1,), (None, 1, 3),
                           {"measures": ["sum"], "valid_counts": True, "sum_empty": "na"}, 2, 2),
